@@ -841,6 +841,16 @@ func mutants(args []string) int {
 			name = filepath.Base(filepath.Dir(f))
 		}
 		id := name[:strings.IndexByte(name, '-')]
+		via := ""
+		if filepath.Base(f) == "patch.diff" {
+			// a seeded change that its own property's check does not see (and need not: see its meta.json) names the check that does
+			var meta struct {
+				CheckedWith string `json:"checked_with"`
+			}
+			if b, err := os.ReadFile(filepath.Join(filepath.Dir(f), "meta.json")); err == nil && json.Unmarshal(b, &meta) == nil && meta.CheckedWith != "" {
+				id, via = meta.CheckedWith, " [by the "+meta.CheckedWith+" check]"
+			}
+		}
 		scratch, _ := os.MkdirTemp("/tmp", "verif-mutant-")
 		tmpDirs = append(tmpDirs, scratch)
 		cmd := exec.Command("bash", "-c", fmt.Sprintf("rsync -a --exclude .git %s/ %s/repo/ && cd %s/repo && patch -s -p1 < %s", repoDir, scratch, scratch, f))
@@ -880,7 +890,7 @@ func mutants(args []string) int {
 		if filepath.Base(f) == "patch.diff" {
 			kind = "seeded"
 		}
-		fmt.Printf("%s %-40s %s\n", kind, name, res)
+		fmt.Printf("%s %-40s %s%s\n", kind, name, res, via)
 		rows = append(rows, row{name, res})
 		os.RemoveAll(scratch)
 	}
